@@ -232,8 +232,10 @@ def rule_load(r):
                 r.check(tgt != "dll", F, qual, pf.unparse(c), c.lineno, "writes %s (C source), not the library" % tgt)
 
 
+from . import extra3 as _x3
 RULES = [
     ("R-C18-publish", 8, "cache path published only by rename after a successful compile", rule_publish),
+    ("R-C18-owner", 4, "no library code outside make_dll removes or replaces a published cache path", _x3.rule_c18_owner),
     ("R-C18-load", 4, "loader opens only the published path", rule_load),
 ]
 from .. import refs as _refs
